@@ -1053,6 +1053,8 @@ class C07(ParseProp):
                   "after the query, leading zeros, -0, +, fraction in an index, an index outside the I-JSON range (every such integer), "
                   "empty brackets/filter, unquoted name, bad escape, control character, half operators, missing operand, upper-case literals, "
                   "blank space after . / .. / a function name (accepted by the grammar, refused by parser.rs) and more (RejectFacts/RejectMore/RejectRange/RejectBlank: the grammar of the run executed on a fixed prefix with the rest symbolic). "
+                  "For EVERY input string: an accepted query contains no control character other than TAB/LF/CR, i.e. such a character anywhere in "
+                  "the input is rejected (C07_control_char_anywhere_rejected: PegAlpha.v, a generic theorem on what a successful match consumes, instantiated on the grammar of the run). "
                   "The whole-language rejection theorem is NOT proved (partial).")
     level_note = "whole-language inversion not proved (partial); the reference recogniser is a human transcription of the ABNF; extension-function calls are outside the property"
     rule = ("every case is a single-token edit (delete/insert/substitute/swap/duplicate a character, blank space anywhere, digit edits around 0, "
